@@ -211,3 +211,64 @@ func verifH_C08_unknown() {
 	verifAssert(len(a.packets) == n+1, "the adapter keeps working after a refused restore")
 	verifReach("end")
 }
+
+// C08_repersist: the same session is recovered more than once and its rooms change in between: it is persisted with rooms
+// {sid, r0}, recovered, joins r1 and/or leaves r0 (symbolic), disconnects again (persisted with the new rooms), misses
+// one broadcast to r0 and one to r1, and is recovered a second time. The second recovery restores exactly the rooms of
+// the LATEST disconnection and replays exactly the missed packets addressed to those rooms, in order.
+//
+//verif:unwind 30
+//verif:sleep gate
+func verifH_C08_repersist() {
+	st := &verifStore{socks: map[SocketID]Socket{}}
+	inMem := NewInMemoryAdapterCreator()(st, func() parser.Parser { return &verifParser{} }).(*inMemoryAdapter)
+	a := newSessionAwareAdapter(inMem, time.Hour, time.Hour)
+	hdr := &parser.PacketHeader{Type: parser.PacketTypeEvent, Namespace: "/"}
+	to := func(r Room) *BroadcastOptions {
+		o := NewBroadcastOptions()
+		o.Rooms.Add(r)
+		return o
+	}
+	a.Broadcast(hdr, []any{"first"}, to("r0"))
+	off1 := a.packets[0].ID
+	a.PersistSession(&SessionToPersist{SID: "sid1", PID: "pid1", Rooms: []Room{"sid1", "r0"}})
+	s1, ok1 := a.RestoreSession("pid1", off1)
+	verifAssert(ok1 && len(s1.MissedPackets) == 0, "first recovery: nothing missed")
+	// connected again: the rooms change
+	joinR1, leaveR0 := verifAnyBool(), verifAnyBool()
+	rooms := []Room{"sid1"}
+	if !leaveR0 {
+		rooms = append(rooms, "r0")
+	}
+	if joinR1 {
+		rooms = append(rooms, "r1")
+	}
+	a.Broadcast(hdr, []any{"seen"}, to("sid1"))
+	off2 := a.packets[len(a.packets)-1].ID
+	a.PersistSession(&SessionToPersist{SID: "sid1", PID: "pid1", Rooms: rooms})
+	a.Broadcast(hdr, []any{"to-r0"}, to("r0"))
+	idR0 := a.packets[len(a.packets)-1].ID
+	a.Broadcast(hdr, []any{"to-r1"}, to("r1"))
+	idR1 := a.packets[len(a.packets)-1].ID
+	s2, ok2 := a.RestoreSession("pid1", off2)
+	verifAssert(ok2, "second recovery succeeds")
+	if !ok2 {
+		return
+	}
+	verifAssert(len(s2.Rooms) == len(rooms), "the rooms restored are those of the latest disconnection")
+	for i := range rooms {
+		verifAssert(i < len(s2.Rooms) && s2.Rooms[i] == rooms[i], "the rooms restored are those of the latest disconnection")
+	}
+	var want []string
+	if !leaveR0 {
+		want = append(want, idR0)
+	}
+	if joinR1 {
+		want = append(want, idR1)
+	}
+	verifAssert(len(s2.MissedPackets) == len(want), "exactly the packets addressed to the rooms of the latest disconnection are replayed")
+	for i := range want {
+		verifAssert(i < len(s2.MissedPackets) && s2.MissedPackets[i].ID == want[i], "in order, none from a room that was left, none missing from a room that was joined")
+	}
+	verifReach("end")
+}
